@@ -66,42 +66,48 @@ def extract():
     srv = test_mod_cut(strip(read("src/websocket_server.rs")))
     fo = fn_body(srv, "frame_outbound")
     m = re.search(r"let frame_len\s*=([^;]*);", fo)
-    if not m: raise ExtractError("frame_outbound: `let frame_len = …`")
-    f["lenTerms"] = len_terms(m.group(1), "m")
-    if "serialized_len" in m.group(1):
-        msg_src = test_mod_cut(strip(read("src/message.rs")))
-        if "".join(fn_body(msg_src, "serialized_len").split()) != "HEADER_SIZE+self.query.len()+self.body.len()": f["lenTerms"] = []
-    chk = re.search(r"let Err\(err\)\s*=\s*limits\.check_outbound\(frame_len\)\s*else\s*\{\s*return Some\(m\.into_wire_bytes\(\)\);\s*\};", fo)
-    if not chk: raise ExtractError("frame_outbound: check/let-else form")
-    rest = fo[chk.end():]
-    p_rep = re.search(r"report_error\(\s*on_error,\s*ConnectionError::OutboundTooLarge\s*\{", rest)
-    p_not = re.search(r"if m\.header\.notify != 0\s*\{\s*return None;\s*\}", rest)
-    p_rpl = re.search(r"create_error_message\(\s*ErrorCode::(\w+)", rest)
-    if not p_rpl: raise ExtractError("frame_outbound: replacement construction")
-    if p_rpl.group(1) not in CODE_FIELD: raise ExtractError(f"frame_outbound: replacement code {p_rpl.group(1)}")
-    f["replacementCode"] = p_rpl.group(1)
-    first_return = re.search(r"\breturn\b", rest)
-    f["reports"] = bool(p_rep) and p_rep.start() < p_rpl.start() and (first_return is None or p_rep.start() < first_return.start())
-    f["notifyDrops"] = bool(p_not) and p_not.start() < p_rpl.start()
-    keeps = re.search(r"let id\s*=\s*m\.header\.id;", rest) and re.search(r"replacement\.header\.id\s*=\s*id;", rest)
-    if len(re.findall(r"replacement\.header\.id\s*=", rest)) != 1: keeps = None
-    if not re.search(r"Some\(replacement\.into_wire_bytes\(\)\)\s*$", rest.strip()): raise ExtractError("frame_outbound: tail expression")
-    f["keepsId"] = bool(keeps)
-    # every binary send in the server file sends a `bytes` that can only have come from frame_outbound
-    cons = binary_constructions(srv)
-    guarded = len(cons) >= 3
-    fn_starts = [m.start() for m in re.finditer(r"\bfn\s+\w+", srv)]
-    for pos, arg in cons:
-        start = max([p for p in fn_starts if p < pos], default=0)
-        i = srv.find("{", start)
-        encl = srv[i:match_brace(srv, i)]
-        binds = re.findall(r"(\w[\w\s\(]*?)\bbytes\b\)?\s*(?::[^=]+)?=(?!=)\s*([^;{]*)", encl)
-        ok = arg == "bytes" and len(binds) >= 1 and all(b[1].strip().startswith("frame_outbound(") and "Some(" in b[0] for b in binds)
-        # nothing else in a sending function may serialise a message
-        ok = ok and not re.search(r"into_wire_bytes\(|\.to_vec\(\)|\.encode\(\)|write_to\(", encl)
-        guarded = guarded and bool(ok)
-    f["writerGuarded"] = guarded
-    f["binarySends"] = len(cons)
+    if not (m and re.search(r"limits\.check_outbound\(frame_len\)", fo)):
+        # the guard in frame_outbound is not the recognised `check_outbound(frame_len)` any more (e.g. an
+        # inlined comparison): nothing the theorems rely on can be read off -> pessimistic facts
+        f.update({"lenTerms": [], "reports": False, "notifyDrops": False, "keepsId": False, "replacementCode": "InternalError",
+                  "writerGuarded": False, "binarySends": 0})
+        m = None
+    if m:
+        f["lenTerms"] = len_terms(m.group(1), "m")
+        if "serialized_len" in m.group(1):
+            msg_src = test_mod_cut(strip(read("src/message.rs")))
+            if "".join(fn_body(msg_src, "serialized_len").split()) != "HEADER_SIZE+self.query.len()+self.body.len()": f["lenTerms"] = []
+        chk = re.search(r"let Err\(err\)\s*=\s*limits\.check_outbound\(frame_len\)\s*else\s*\{\s*return Some\(m\.into_wire_bytes\(\)\);\s*\};", fo)
+        if not chk: raise ExtractError("frame_outbound: check/let-else form")
+        rest = fo[chk.end():]
+        p_rep = re.search(r"report_error\(\s*on_error,\s*ConnectionError::OutboundTooLarge\s*\{", rest)
+        p_not = re.search(r"if m\.header\.notify != 0\s*\{\s*return None;\s*\}", rest)
+        p_rpl = re.search(r"create_error_message\(\s*ErrorCode::(\w+)", rest)
+        if not p_rpl: raise ExtractError("frame_outbound: replacement construction")
+        if p_rpl.group(1) not in CODE_FIELD: raise ExtractError(f"frame_outbound: replacement code {p_rpl.group(1)}")
+        f["replacementCode"] = p_rpl.group(1)
+        first_return = re.search(r"\breturn\b", rest)
+        f["reports"] = bool(p_rep) and p_rep.start() < p_rpl.start() and (first_return is None or p_rep.start() < first_return.start())
+        f["notifyDrops"] = bool(p_not) and p_not.start() < p_rpl.start()
+        keeps = re.search(r"let id\s*=\s*m\.header\.id;", rest) and re.search(r"replacement\.header\.id\s*=\s*id;", rest)
+        if len(re.findall(r"replacement\.header\.id\s*=", rest)) != 1: keeps = None
+        if not re.search(r"Some\(replacement\.into_wire_bytes\(\)\)\s*$", rest.strip()): raise ExtractError("frame_outbound: tail expression")
+        f["keepsId"] = bool(keeps)
+        # every binary send in the server file sends a `bytes` that can only have come from frame_outbound
+        cons = binary_constructions(srv)
+        guarded = len(cons) >= 3
+        fn_starts = [m.start() for m in re.finditer(r"\bfn\s+\w+", srv)]
+        for pos, arg in cons:
+            start = max([p for p in fn_starts if p < pos], default=0)
+            i = srv.find("{", start)
+            encl = srv[i:match_brace(srv, i)]
+            binds = re.findall(r"(\w[\w\s\(]*?)\bbytes\b\)?\s*(?::[^=]+)?=(?!=)\s*([^;{]*)", encl)
+            ok = arg == "bytes" and len(binds) >= 1 and all(b[1].strip().startswith("frame_outbound(") and "Some(" in b[0] for b in binds)
+            # nothing else in a sending function may serialise a message
+            ok = ok and not re.search(r"into_wire_bytes\(|\.to_vec\(\)|\.encode\(\)|write_to\(", encl)
+            guarded = guarded and bool(ok)
+        f["writerGuarded"] = guarded
+        f["binarySends"] = len(cons)
 
     cli = test_mod_cut(strip(read("src/websocket_client.rs")))
     wr = fn_body(cli, "write_request")
